@@ -122,6 +122,19 @@ def monUntil (fuel : Nat) (s : State) (p : State → Bool) : Option (State × Na
         if k1 + k2 == 0 then none else (monUntil fuel s2 p).map fun (s3, k) => (s3, k + k1 + k2)
       | _ => none
 
+/-- the same, letting only reader thread `r` (1 = stdout reader, 2 = stderr reader) finish its thread-local steps -/
+def monUntilOnly (fuel : Nat) (s : State) (r : Nat) (p : State → Bool) : Option (State × Nat) :=
+  match fuel with
+  | 0 => none
+  | fuel + 1 =>
+    if p s then some (s, 0)
+    else match step s 3 with
+      | some (s', .tau) => (monUntilOnly fuel s' r p).map fun (s'', k) => (s'', k + 1)
+      | none =>
+        let (s1, k1) := closureT 4 s r
+        if k1 == 0 then none else (monUntilOnly fuel s1 r p).map fun (s3, k) => (s3, k + k1)
+      | _ => none
+
 def tid (w : String) : Option Nat :=
   if w == "child" then some 0 else if w == "r0" then some 1 else if w == "r1" then some 2
   else if w == "mon" then some 3 else if w == "main" then some 4 else none
@@ -169,7 +182,9 @@ def feed (m : Sim) (ws : List String) : Except String Sim :=
     match k.toNat? with
     | none => .error "bad stream"
     | some k =>
-      match monUntil 12 m.s (fun s => if k == 0 then s.mpc == .join0 else s.mpc == .join1) with
+      -- (on the way to join1 only the stdout reader may be let to finish: the reader that is about to be abandoned has closed its
+      -- queue, perhaps, but its thread has not ended — that is why the monitor's wait for it ran out)
+      match monUntilOnly 12 m.s 1 (fun s => if k == 0 then s.mpc == .join0 else s.mpc == .join1) with
       | none => .error s!"model: the monitor is not joining reader {k}"
       | some (s1, n) =>
         match abandon s1 k with
